@@ -11,7 +11,8 @@
 From Coq Require Import ZArith List Bool NArith.
 Import ListNotations.
 Require Import PV.Narrow.Base PV.Narrow.Model PV.Narrow.Guards.
-Require Import PV.Gen.NarrowTable.
+Require Import PV.Gen.NarrowTable PV.Gen.NarrowPreds.
+Require Import PV.Proofs.NarrowSkel.
 Require Import PV.Proofs.NarrowBasics PV.Proofs.NarrowMain PV.Proofs.NarrowWiden PV.Proofs.NarrowVerdict.
 
 (* the class table (mro, TypeObject.base_classes, artificial bases), the per-class
@@ -21,6 +22,47 @@ Require Import PV.Proofs.NarrowBasics PV.Proofs.NarrowMain PV.Proofs.NarrowWiden
 Theorem C02_generated_tables_agree : tables_agree = true /\ forall op, gen_neg_op op = neg_op op.
 Proof. exact (conj gen_tables_agree gen_neg_op_agrees). Qed.
 Print Assumptions C02_generated_tables_agree.
+
+(* the control flow of IsAssignablePredicate.__call__, LenPredicate.__call__, the is_truthy /
+   is_value_object / add_annotation branches and the dispatch order of Constraint.apply_to_value,
+   and EqualsPredicate's operator table, translated from the Python source on every run, equal the
+   model's decision skeletons (the translator also pins the ast of 22 hand-transcribed functions) *)
+Theorem C02_generated_predicates_agree :
+  (forall ov asg univ po positive, gen_isassignable ov asg univ po positive = isassignable_skel ov asg univ po positive) /\
+  (forall known k n star positive is_typed is_tuple,
+     gen_lenpat known k n star positive is_typed is_tuple = lenpat_skel known k n star positive is_typed is_tuple) /\
+  (forall sf st positive, gen_truthy sf st positive = truthy_skel sf st positive) /\
+  (forall positive, gen_valueobject positive = valueobject_skel positive /\ gen_addannot positive = valueobject_skel positive) /\
+  (forall positive use_is, gen_operator positive use_is = model_operator positive use_is) /\
+  gen_dispatch = model_dispatch.
+Proof.
+  exact (conj gen_isassignable_agrees (conj gen_lenpat_agrees (conj gen_truthy_agrees
+        (conj gen_valueobject_agrees (conj gen_operator_agrees gen_dispatch_agrees))))).
+Qed.
+Print Assumptions C02_generated_predicates_agree.
+
+(* ... and the model's predicates are exactly those skeletons applied to the model's tests *)
+Theorem C02_model_predicates_are_skeletons :
+  (forall pat po s positive,
+     pred_isassignable pat po s positive =
+     interp (isassignable_skel (overlapping pat s) (pat_assignable pat s) (univ_assignable (sbase s) pat) po positive)
+            s (map plain pat)) /\
+  (forall n star s positive,
+     pred_lenpat n star s positive =
+     interp (lenpat_skel (match len_of_value s with Some _ => true | None => false end)
+                         (match len_of_value s with Some k => k | None => 0%Z end)
+                         (Z.of_nat n) star positive (tuple_typed (sbase s)) true)
+            s [plain (VTuple (repeat (false, tuple_arg (sbase s)) n))]) /\
+  (forall positive s,
+     apply_constr (KTruthy positive) s =
+     interp (truthy_skel (is_safely_false (boolab_of_b (sbase s))) (is_safely_true (boolab_of_b (sbase s))) positive) s []) /\
+  (forall t positive s, apply_constr (KValueObject t positive) s = interp (valueobject_skel positive) s t) /\
+  (forall n positive s, apply_constr (KAddAnnot n positive) s = interp (valueobject_skel positive) s [annotate s [HasAttrExt n]]).
+Proof.
+  exact (conj pred_isassignable_is_skel (conj pred_lenpat_is_skel (conj truthy_is_skel
+        (conj valueobject_is_skel addannot_is_skel)))).
+Qed.
+Print Assumptions C02_model_predicates_are_skeletons.
 
 (* (1) the object that takes a branch is still in the type assigned in that branch:
    all condition kinds, arbitrary not/and/or nesting, both polarities, any union V *)
@@ -60,6 +102,33 @@ Theorem C02_enum_class_object_refuted :
 Proof. exact enum_class_object_refuted. Qed.
 Print Assumptions C02_enum_class_object_refuted.
 
+Theorem C02_sequence_pattern_str_refuted :
+  exists V c pol o, wf_obj o = true /\ cond_ok c o = true /\ member o V = true /\ holds c o = Some pol /\
+    sequence_pattern_str c o = true /\ member o (narrow V c pol) = false.
+Proof. exact sequence_pattern_str_refuted. Qed.
+Print Assumptions C02_sequence_pattern_str_refuted.
+
+Theorem C02_assert_promotion_refuted :
+  exists V c pol o, wf_obj o = true /\ cond_ok c o = true /\ member o V = true /\ holds c o = Some pol /\
+    assert_promotion c o = true /\ member o (narrow V c pol) = false.
+Proof. exact assert_promotion_refuted. Qed.
+Print Assumptions C02_assert_promotion_refuted.
+
+(* match statements: `case [a, b, *rest]` on a union of tuples of different lengths keeps exactly
+   the tuples that can match, and the object that matches is covered by the main theorem *)
+Example C02_match_seq_example :
+  let V := [plain (VTuple [(false, TIntE)]); plain (VTuple [(false, TIntE); (false, TStrE)]);
+            plain (VTuple [(false, TIntE); (false, TStrE); (false, TNoneE)]); plain (VTyped CStr)] in
+  let c := match_seq [EWild; EWild] true [] in
+  narrow V c true = [plain (VTuple [(false, TIntE); (false, TStrE)]);
+                     plain (VTuple [(false, TIntE); (false, TStrE); (false, TNoneE)]);
+                     plain (VGen GSeqPat)] /\
+  holds c (OTuple [LInt 1; LStr []]) = Some true /\ c02_guard c (OTuple [LInt 1; LStr []]) = true /\
+  holds c (OTuple [LInt 1]) = Some false /\ holds c (OStr [97%N]) = Some false /\
+  narrow V c false = V.
+Proof. exact match_seq_example. Qed.
+Print Assumptions C02_match_seq_example.
+
 Example C02_narrow_guard_inhabited :
   let V := [plain (VTyped CInt); plain (VTyped CStr); plain (VKnown ONone); plain (VTyped CE)] in
   let c := CAnd (CNot (CIs ONone)) (COr (CIsInstance [CInt; CBool]) (CEq (OEnum CE 0))) in
@@ -82,6 +151,19 @@ Theorem C02_narrow_no_widening_plain : forall V c pol o,
   member o (narrow V c pol) = true -> member o V = true \/ member o (tested c) = true.
 Proof. exact narrow_no_widening_plain. Qed.
 Print Assumptions C02_narrow_no_widening_plain.
+
+(* (1')/(2') the same two statements for what an `if` makes of x end to end, where visit_BoolOp
+   first merges a narrowed copy of x (by the first operand) into the variable *)
+Theorem C02_narrow_e2e_keeps_value_partial : forall V c pol o,
+  member o V = true -> holds c o = Some pol -> c02_guard c o = true ->
+  member o (narrow_e2e V c pol) = true.
+Proof. exact narrow_e2e_keeps_value_partial. Qed.
+Print Assumptions C02_narrow_e2e_keeps_value_partial.
+
+Theorem C02_narrow_e2e_no_widening : forall V c pol o,
+  member o (narrow_e2e V c pol) = true -> bmember o V = true \/ bmember o (tested c) = true.
+Proof. exact narrow_e2e_no_widening. Qed.
+Print Assumptions C02_narrow_e2e_no_widening.
 
 (* (3) always-false / always-true verdicts of get_boolability are right for every member *)
 Theorem C02_always_false_correct : forall V o,
